@@ -53,7 +53,7 @@ def watchWorld (files : List (String × List Variant)) : Session.World String Na
 module model, and so is one where a new source file shadows a declaration file of the same base name (`sh_v*`): not tied -/
 def hasValueModule : Sexp → Bool
   | .list (.atom "files" :: fs) => fs.any fun f => match f with
-    | .list (.atom "file" :: .str n :: _) => n == "cfg_v.ts" || n.startsWith "sh_v"
+    | .list (.atom "file" :: .str n :: _) => n == "cfg_v.ts" || n.startsWith "sh_v" || n.startsWith "gen_v"
     | _ => false
   | _ => false
 
